@@ -123,8 +123,17 @@ def team_cases(draw):
         }
 
     n_sel = draw(st.sampled_from([1, 2, 2, 3, 3, 4]))
-    if draw(st.integers(0, 9)) == 0:
+    flavour = draw(st.integers(0, 9))
+    if flavour == 0:
         selection = draw(st.lists(st.sampled_from(car_names), min_size=n_sel, max_size=n_sel))  # a name may repeat
+    elif flavour == 1 and n_cars >= 2:
+        # a name comes back after another car (--car="4gheap,tuned,4gheap"): applied in the order given, its variables win again
+        a, b = draw(st.permutations(car_names))[:2]
+        selection = [a, b, a]
+        shared = sorted(set(cars[a]["vars"]) & set(cars[b]["vars"]))
+        if not shared and cars[b]["vars"]:
+            k = sorted(cars[b]["vars"])[0]
+            cars[a]["vars"][k] = str(cars[b]["vars"][k]) + "-a"  # the two define one key with different values
     else:
         selection = draw(st.permutations(car_names))[: min(n_sel, n_cars)]
     if not no_base and not any(cars[c]["bases"] for c in selection):
